@@ -278,12 +278,14 @@ def generate(rng, tier, index):
     plan = {"prop": ID, "schema_xml": xml, "top": uni["top"],
             "variant": variant, "fault": None,
             "entry": rng.choice(["url", "url", "path", "file",
-                                 "file-nourl"])}
+                                 "file-nourl", "namedfile+url"])}
     res = TF.res_texts(uni)
     if variant == "invalid":
         injs = TF.enumerate_injections(ir, uni)
         if injs:
-            res = TF.apply(res, rng.choice(injs))
+            inj_ = rng.choice(injs)
+            plan["inj_kind"] = inj_["kind"]
+            res = TF.apply(res, inj_)
         else:
             plan["variant"] = "plain"
     elif variant in ("define-conflict", "define-repeat"):
@@ -426,7 +428,7 @@ def generate(rng, tier, index):
     # loaded with the current directory somewhere else, where files of the
     # same RELATIVE names exist
     plan["realfs"] = (rng.random() < 0.25 and not plan["fault"]
-                      and not any("include /sim/" in t
+                      and not any("include /sim/" in t or "/sim/abs2" in t
                                   for t in store.values()) and all(
         u.startswith("file:///sim/") and "%" not in u
         for u in list(store) + list(plan["decoys"])))
@@ -594,6 +596,14 @@ def _execute(plan, out, store, decoys_in, top, real, report_plan=None):
             # ... or handed over as an open text stream with its URL
             oc = ops.config_outcome(lambda: ZConfig.loadConfigFile(
                 schema, io.StringIO(cut_store.get(top, "")), top))
+        elif entry == "namedfile+url":
+            # a stream that has a .name of its own (a spooled copy somewhere
+            # else) handed over together with the resource's URL: the URL
+            # given is the resource's URL
+            nf = io.StringIO(cut_store.get(top, ""))
+            nf.name = "/sim/spool/copy-of-top.conf"
+            oc = ops.config_outcome(lambda: ZConfig.loadConfigFile(
+                schema, nf, top))
         elif entry == "file-nourl":
             # ... or as a text stream WITHOUT any URL: its %include lines
             # then name their targets absolutely (same targets)
@@ -607,7 +617,7 @@ def _execute(plan, out, store, decoys_in, top, real, report_plan=None):
         else:
             oc = ops.config_outcome(lambda: ZConfig.loadConfig(schema, top))
         opened = list(w.opened)
-        if entry in ("file", "file-nourl"):
+        if entry in ("file", "file-nourl", "namedfile+url"):
             # the caller opened the top resource itself
             opened = [top] + opened
         fired = w.op_fired
@@ -670,6 +680,20 @@ def _execute(plan, out, store, decoys_in, top, real, report_plan=None):
                                   "%s load raised %s" % (what, ops.brief(o)))
                 if oi["cls"] != oc["cls"]:
                     probe("rejections-of-different-class")
+                    if variant == "define-conflict" or (
+                            variant == "invalid" and plan.get("inj_kind") in (
+                                "bad-value", "bad-key", "unknown-key",
+                                "repeated-key", "subst-undefined",
+                                "subst-malformed", "bad-directive",
+                                "unknown-section-type")):
+                        # one identifiable faulty line, the first error in
+                        # reading order in both layouts: the same KIND of
+                        # rejection (a conversion error stays a conversion
+                        # error wherever its line is stored)
+                        violation("rejection-class-differs",
+                                  "inlined text rejected with %s, cut "
+                                  "layout with %s" % (ops.brief(oi),
+                                                      ops.brief(oc)))
         else:
             if not oi["ok"]:
                 out["waste"] += 1          # needs a valid inlined text
